@@ -174,7 +174,9 @@ def point_src(vals, ints_ok=True):
 
 
 CROSS_BODIES = ["(x@0)^(x@1)", "+/x^x", "2^+/x", "(+/x)^(x@0)", "exp(x@0)*sin(x@1)", "+/exp(x)", "+/x*sin(x)", "cos(+/x*x)", "+/x^1.5",
-                "(x@1)^(x@0)*0.5", "log((x@0)+(x@1)*(x@1))", "+/sqrt(x)", "(exp(x@0))^(x@1)", "+/{x^x}'x", "(x@0)^2.5-(x@1)^(x@0)"]
+                "(x@1)^(x@0)*0.5", "log((x@0)+(x@1)*(x@1))", "+/sqrt(x)", "(exp(x@0))^(x@1)", "+/{x^x}'x", "(x@0)^2.5-(x@1)^(x@0)",
+                # a constant base under an exponent that depends on the variable, next to another term that depends on it
+                "(2^x@0)+x@1", "(2^exp(x@0))+x@1", "(x@0)+2^+/x", "(2^x@0)*x@1", "+/x+3^x", "(x@1)-0.5^(x@0)*x@1"]
 CROSS_POINTS = ["[2.0 3.0]", "[1.5 0.5]", "[0.5 2.0]"]
 
 
